@@ -387,7 +387,7 @@ sys.stdout.write(json.dumps(out))
                 with Seams() as sm:
                     stub.install(sm, cmeta)
                     stub.set_faults({})
-                    app, base, _, _ = self.build(cfg)
+                    app, base, _, _ = self.build(cfg, decoy=False)
                     s = BatonScheduler(['T0'], [], 'line', CONC_WATCH)
                     s.run({'T0': lambda: call_app(app, make_environ('GET', base + ('json/' if view == 'json' else ''), headers={'Accept': 'text/html'}))})
                 self._CONC_N[key] = max(s.steps, 10)
@@ -406,7 +406,7 @@ sys.stdout.write(json.dumps(out))
             stub.set_faults({})
             for k in plan['conc']['ks']:
                 try:
-                    app, base, secrets, serving = self.build(cfg)        # nobody has called it yet
+                    app, base, secrets, serving = self.build(cfg, decoy=False)        # nobody has called it yet
                 except Exception as e:
                     res.violate(K + 'setup-failed:%s' % type(e).__name__, '%r %s' % (e, canon(cfg)))
                     return res
@@ -448,7 +448,7 @@ sys.stdout.write(json.dumps(out))
         return res
 
     # ---- execution ---------------------------------------------------------
-    def build(self, cfg):
+    def build(self, cfg, decoy=True):
         self._degenerate = False
         secrets = []    # (marker forms) of every secret-named resource at any level
         serving = {}    # resources of the serving (outermost) application: name -> (kind, marker)
@@ -502,7 +502,8 @@ sys.stdout.write(json.dumps(out))
                 mws.append(ContextProcessor(required=sorted(names)))
                 self._ctx_required = sorted(names)
         meta = MetaApplication()
-        self._decoy = len(cfg['resources']) % 2 == 0
+        # (never for the 'conc' plans: they are about the very first requests a MetaApplication object sees)
+        self._decoy = decoy and len(cfg['resources']) % 2 == 0
         if self._decoy:
             # round 14: the SAME MetaApplication object is first mounted in another host of the process (no secrets
             # there) and viewed once, then in the host under test (decided by a value that exists anyway: no extra draw)
